@@ -288,6 +288,7 @@ func runC18(c *an.Ctx) {
 			}
 		}
 		c.Min("C18.d", "NOT_FOUND exits of doRequest", nNF, 1)
+		checkPeerReturnedOnEmptyResponse(c, "C18.d", s.doReq, isPush)
 
 		// queue pairing
 		qt := c.T(push)
